@@ -50,7 +50,7 @@ def routing_case(draw, sub, focus="filters"):
     if pair_adapters:
         n1 = n2 = draw(st.integers(1, 3))
     times = draw(st.sampled_from([1, 1, 1, 2]))
-    action = draw(st.sampled_from(["trim", "trim", "trim", "none", "mask", "retain"]))
+    action = draw(st.sampled_from(["trim", "trim", "trim", "none", "mask", "retain", "lowercase"]))
     if action == "retain" or pair_adapters:
         times = 1
     kinds = ["back", "back", "front", "prefix", "suffix", "anywhere"]
